@@ -205,7 +205,9 @@ impl VM {
         if let Value::P(p) = val {
             self.push(
                 Rc::new(match t {
-                    CastType::Str => Value::P(Primitive::Str(format!("{}", p).into())),
+                    // Use the plain rendering: Display quotes and escapes strings for the
+                    // repl, which would turn str("a") into "\"a\"".
+                    CastType::Str => Value::P(Primitive::Str(p.into())),
                     CastType::Int => Value::P(Primitive::Int(p.try_into()?)),
                     CastType::Float => Value::P(Primitive::Float(p.try_into()?)),
                     CastType::Bool => Value::P(Primitive::Bool(p.try_into()?)),
